@@ -17,7 +17,7 @@ def max_queryer_recursion : Nat := 32
 def max_resolution_attempts : Nat := 3
 def net_call_funcs : List String := ["dialUDP", "exchange"]
 def nsec3_verifier_calls : Nat := 5
-def nsec3_verifier_work_args : List String := ["classificationWork", "r.dnssecWork(ctx)", "validationWork"]
+def nsec3_verifier_work_args : List String := ["r.dnssecWork(ctx)"]
 def shape_cacheable_reads_ledger_at_decision : Bool := true
 def shape_cached_descent_spends_depth : Bool := true
 def shape_chase_checks_deadline : Bool := true
